@@ -375,9 +375,11 @@ VEX_REG_CLASSES = {"rvm": (0x72, 0x75), "rm": (0x68, 0x6B), "rvmi": (0x7A, 0x7C)
                    # X86Lea: `lea reg, mem` (the memory operand has no register alternative: only the register kind is listed)
                    "llea": (0x2B,),
                    # X86Jcc / X86Jmp / X86Call to a bound label: rel8 and rel32 forms
-                   "lrel": (0x26, 0x28, 0x1C)}
+                   "lrel": (0x26, 0x28, 0x1C),
+                   # X86Arith `op r16/r32/r64, imm` (81 /d iw|id, 83 /d ib)
+                   "larithimm": (0x19,)}
 SHAPE_ROLES = {"rvm": ["reg", "vvvv", "rm"], "rm": ["reg", "rm"], "rvmi": ["reg", "vvvv", "rm", "imm"], "rmi": ["reg", "rm", "imm"],
-               "lrm": ["reg", "rm"], "lmr": ["rm", "reg"], "lrmi": ["reg", "rm", "imm"], "lop": None, "larith": ["rm", "reg"], "lrot": ["rm", "imm"], "larithi8": ["rm", "imm"], "lopreg": ["opc"], "larithrm": ["reg", "rm"], "lmov": ["rm", "reg"], "lmovrm": ["reg", "rm"], "mr": ["rm", "reg"], "mri": ["rm", "reg", "imm"], "llea": ["reg", "rm"], "lrel": ["rel"]}
+               "lrm": ["reg", "rm"], "lmr": ["rm", "reg"], "lrmi": ["reg", "rm", "imm"], "lop": None, "larith": ["rm", "reg"], "lrot": ["rm", "imm"], "larithi8": ["rm", "imm"], "lopreg": ["opc"], "larithrm": ["reg", "rm"], "lmov": ["rm", "reg"], "lmovrm": ["reg", "rm"], "mr": ["rm", "reg"], "mri": ["rm", "reg", "imm"], "llea": ["reg", "rm"], "lrel": ["rel"], "larithimm": ["rm", "imm"]}
 
 
 def class_rows_lean(kept, rows, chunk=96):
@@ -402,6 +404,8 @@ def class_rows_lean(kept, rows, chunk=96):
                 continue
             if shape == "larithi8" and f["operands"][0]["reg"] != "r8":
                 continue
+            if shape == "larithimm" and f["operands"][0]["reg"] not in ("r16", "r32", "r64"):
+                continue
             if shape in ("lmov", "lmovrm") and any(o["reg"] not in ("r8", "r16", "r32", "r64") for o in f["operands"]):
                 continue
             if legacy:
@@ -414,14 +418,14 @@ def class_rows_lean(kept, rows, chunk=96):
             okf = True
             for o, role in zip(f["operands"] if shape != "lop" else [], roles):
                 if role == "imm":
-                    if o["imm"] != 8:
+                    if o["imm"] != 8 and shape != "larithimm":
                         okf = False
                     continue
                 if shape == "llea" and not o["reg"]:
                     continue
                 if role == "rel":
                     continue
-                if o["reg"] not in CLASS or (len(CLASS[o["reg"]]) != 1 and shape not in ("larith", "lrot", "larithi8", "larithrm", "lmov", "lmovrm")) or o["implicit"]:
+                if o["reg"] not in CLASS or (len(CLASS[o["reg"]]) != 1 and shape not in ("larith", "lrot", "larithi8", "larithrm", "lmov", "lmovrm", "larithimm")) or o["implicit"]:
                     okf = False
                     break
                 kinds.append(CLASS[o["reg"]])
